@@ -45,76 +45,86 @@ func checkC02(P *Prog, r *Result) {
 		"Multiset equality of issues against an executable specification for arbitrary inputs is not decided."
 	// ---- loop-no-early-exit ----
 	nLoops := 0
-	for _, fn := range P.nodeFuncs() {
-		for li, nl := range P.testsLoops(fn) {
-			nLoops++
-			r.sawFunc(fname(fn))
-			c := fmt.Sprintf("%s#tests-loop@%d", fname(fn), li+1)
-			var bad []string
-			// the loop must call each test: CALL-TEST in the body, on every path through the body
-			callBlocks := map[*ssa.BasicBlock]bool{}
-			for b := range nl.body {
-				for _, in := range b.Instrs {
-					if P.isTestFuncCall(callOf(in)) {
-						callBlocks[b] = true
-					}
-				}
+	for _, nf := range P.nodeFuncs() {
+		li := 0
+		for _, u := range P.nodeUnits(nf) {
+			if u.fn.Parent() != nil {
+				continue // closures hold post-transform loops, not test loops
 			}
-			if len(callBlocks) == 0 {
-				bad = append(bad, "the loop over the tests never calls a test")
-			} else {
-				// every path from the body entry back to the header or out passes a call
-				for k, s := range nl.header.Succs {
-					_ = k
-					if !nl.body[s] {
-						continue
-					}
-					for x := range reach(s, callBlocks) {
-						if x == nl.header && s != nl.header {
-							bad = append(bad, "an iteration can skip calling its test")
-						}
-						for _, ss := range x.Succs {
-							if ss == nl.header && !callBlocks[x] {
-								bad = append(bad, "an iteration can skip calling its test")
+			u.with(func() {
+				for _, nl := range P.testsLoops(u.fn) {
+					li++
+					nLoops++
+					fn := u.fn
+					r.sawFunc(fname(fn))
+					c := fmt.Sprintf("%s#tests-loop@%d", fname(nf), li)
+					var bad []string
+					// the loop must call each test: CALL-TEST in the body, on every path through the body
+					callBlocks := map[*ssa.BasicBlock]bool{}
+					for b := range nl.body {
+						for _, in := range b.Instrs {
+							if P.isTestFuncCall(callOf(in)) {
+								callBlocks[b] = true
 							}
 						}
 					}
-				}
-			}
-			for b := range nl.body {
-				for k, s := range b.Succs {
-					if nl.body[s] || b == nl.header {
-						continue
-					}
-					if leadsOnlyToPanic(s) {
-						continue
-					}
-					iff := condOf(b)
-					okExit := false
-					if iff != nil {
-						if _, f := loadOfField(cv(iff.Cond)); f != nil && sameField(f, R.FExit) && k == 0 {
-							okExit = true
+					if len(callBlocks) == 0 {
+						bad = append(bad, "the loop over the tests never calls a test")
+					} else {
+						// every path from the body entry back to the header or out passes a call
+						for k, s := range nl.header.Succs {
+							_ = k
+							if !nl.body[s] {
+								continue
+							}
+							for x := range reach(s, callBlocks) {
+								if x == nl.header && s != nl.header {
+									bad = append(bad, "an iteration can skip calling its test")
+								}
+								for _, ss := range x.Succs {
+									if ss == nl.header && !callBlocks[x] {
+										bad = append(bad, "an iteration can skip calling its test")
+									}
+								}
+							}
 						}
 					}
-					for _, gd := range guardsOf(b) {
-						if _, f := loadOfField(cv(gd.If.Cond)); f != nil && sameField(f, R.FExit) && gd.True {
-							okExit = true
+					for b := range nl.body {
+						for k, s := range b.Succs {
+							if nl.body[s] || b == nl.header {
+								continue
+							}
+							if leadsOnlyToPanic(s) {
+								continue
+							}
+							iff := condOf(b)
+							okExit := false
+							if iff != nil {
+								if _, f := loadOfField(cv(iff.Cond)); f != nil && sameField(f, R.FExit) && k == 0 {
+									okExit = true
+								}
+							}
+							for _, gd := range guardsOf(b) {
+								if _, f := loadOfField(cv(gd.If.Cond)); f != nil && sameField(f, R.FExit) && gd.True {
+									okExit = true
+								}
+							}
+							if !okExit {
+								bad = append(bad, fmt.Sprintf("the test loop can be left at %s without ctx.Exit being set: later tests of the node are not run, so only the first failure is reported", P.ipos(b.Instrs[len(b.Instrs)-1])))
+							}
 						}
 					}
-					if !okExit {
-						bad = append(bad, fmt.Sprintf("the test loop can be left at %s without ctx.Exit being set: later tests of the node are not run, so only the first failure is reported", P.ipos(b.Instrs[len(b.Instrs)-1])))
+					// order: the loop visits tests[i] with the induction variable
+					if len(bad) > 0 {
+						r.bad("C02/loop-no-early-exit", c, P.ipos(nl.header.Instrs[0]), strings.Join(uniqSorted(bad), "; "))
+					} else {
+						r.ok("C02/loop-no-early-exit", c, P.ipos(nl.header.Instrs[0]), "every iteration calls its test; the only early exits are guarded by ctx.Exit")
 					}
 				}
-			}
-			// order: the loop visits tests[i] with the induction variable
-			if len(bad) > 0 {
-				r.bad("C02/loop-no-early-exit", c, P.ipos(nl.header.Instrs[0]), strings.Join(uniqSorted(bad), "; "))
-			} else {
-				r.ok("C02/loop-no-early-exit", c, P.ipos(nl.header.Instrs[0]), "every iteration calls its test; the only early exits are guarded by ctx.Exit")
-			}
+			})
 		}
 	}
-	r.floor("C02/loop-no-early-exit", 6)
+	r.floor("C02/loop-no-early-exit", 2)
 
 	// ---- abort-after-required-or-coerce + exactly-one-issue (path based) ----
 	for _, fn := range P.nodeFuncs() {
@@ -165,7 +175,7 @@ func checkC02(P *Prog, r *Result) {
 			r.ok("C02/abort-after-required-or-coerce", fname(fn), P.pos(fn.Pos()), fmt.Sprintf("%d paths: a required/coerce issue is the only issue of its path and is followed by return", len(paths)))
 		}
 	}
-	r.floor("C02/abort-after-required-or-coerce", 5)
+	r.floor("C02/abort-after-required-or-coerce", 3)
 
 	// ---- current-test ----
 	okWBR, detail := P.testWriteBeforeRead(r)
@@ -190,8 +200,8 @@ func checkC02(P *Prog, r *Result) {
 			r.bad("C02/single-emit", fname(w.fn), P.pos(w.closure.Pos()), fmt.Sprintf("%d AddIssue calls in the wrapper: a failing predicate yields that many issues", w.addIssues))
 		}
 	}
-	r.floor("C02/current-test", 3)
-	r.floor("C02/single-emit", 2)
+	r.floor("C02/current-test", 2)
+	r.floor("C02/single-emit", 1)
 
 	// ---- nil-iff-empty ----
 	P.checkNilIffEmpty(r)
@@ -221,7 +231,7 @@ func checkC02(P *Prog, r *Result) {
 			r.ok("C02/not-swallowed", c, P.ipos(s.at), "own context catch-clean")
 		}
 	}
-	r.floor("C02/not-swallowed", 50)
+	r.floor("C02/not-swallowed", 25)
 	P.checkIssueContainerReads(r, "C02/no-global-gating")
 }
 
@@ -329,46 +339,43 @@ func (P *Prog) checkNilIffEmpty(r *Result) {
 			}
 		}
 	}
-	// entry points return the field of the container they created
+	// entry points return the field of the container they created (decided on the entry point's paths,
+	// shared prologue helpers and the closures handed to them entered)
 	for _, ep := range R.EntryPoints {
 		r.sawFunc(fname(ep))
-		var ctorCall *ssa.Call
-		eachInstr(ep, func(_ *ssa.BasicBlock, _ int, in ssa.Instruction) {
-			if c, ok := in.(*ssa.Call); ok {
-				if ci := callOf(c); ci.static != nil && (fname(ci.static) == "zog/internals.NewErrsMap" || fname(ci.static) == "zog/internals.NewErrsList") {
-					ctorCall = c
-				}
-			}
-		})
 		c := fname(ep) + "#result"
-		if ctorCall == nil {
-			r.bad("C02/nil-iff-empty", c, P.pos(ep.Pos()), "entry point does not create an issue container")
+		paths, capHit := P.entryPaths(ep)
+		if capHit {
+			r.undecided("C02/nil-iff-empty", c, P.pos(ep.Pos()), "too many paths to enumerate")
 			continue
 		}
-		okRet := true
+		bad := ""
 		nRet := 0
-		usedByExec := false
-		eachInstr(ep, func(_ *ssa.BasicBlock, _ int, in ssa.Instruction) {
-			if rt, ok := in.(*ssa.Return); ok && len(rt.Results) == 1 {
-				nRet++
-				v := rt.Results[0]
-				// the load may be spilled through the named result; accept load of field of ctorCall
-				b, f := loadOfField(cv(v))
-				if f == nil || cv(b) != ssa.Value(ctorCall) || (f.Name() != "M" && f.Name() != "List") {
-					okRet = false
-				}
+		for _, p := range paths {
+			if p.end != "RETURN" {
+				continue
 			}
-			if ci := callOf(in); ci != nil && ci.static != nil && ci.static.Name() == "NewExecCtx" {
-				if cvi(ci.args()[0]) == ssa.Value(ctorCall) {
-					usedByExec = true
-				}
+			nRet++
+			switch {
+			case len(p.containers) == 0:
+				bad = "entry point does not create an issue container"
+			case len(p.containers) > 1:
+				bad = "entry point creates more than one issue container"
+			case (p.retField != "M" && p.retField != "List") || p.retBase != p.containers[0]:
+				bad = "the entry point does not return exactly the issue collection of the container it created"
+			case len(p.execCont) != 1 || p.execCont[0] != p.containers[0]:
+				bad = "the container whose collection is returned is not the one the execution records issues into"
 			}
-		})
+			if bad != "" {
+				bad += "  [path: " + p.str + "]"
+				break
+			}
+		}
 		switch {
-		case !okRet || nRet == 0:
+		case bad != "":
+			r.bad("C02/nil-iff-empty", c, P.pos(ep.Pos()), bad)
+		case nRet == 0:
 			r.bad("C02/nil-iff-empty", c, P.pos(ep.Pos()), "the entry point does not return exactly the issue collection of the container it created")
-		case !usedByExec:
-			r.bad("C02/nil-iff-empty", c, P.pos(ep.Pos()), "the container whose collection is returned is not the one the execution records issues into")
 		default:
 			r.ok("C02/nil-iff-empty", c, P.pos(ep.Pos()), "returns the collection of the container this execution records into")
 		}
